@@ -232,7 +232,9 @@ def check_matching(case, v: Verdict):
         v.label("template-fallback-taken")
     unconv = solver == "general" and branch != "detonation" and not hyd.success
     at_vmin, at_vj = vw == max(vmin, 1e-3), vw == vJ
-    cls = (f"{solver}/{fam}/{branch}/{bucket}" + ("/at-vMin" if at_vmin else "") + ("/at-vJ" if at_vj else "")
+    slow_vp = bucket == "vw>=0.1" and branch != "detonation" and vp < 0.03
+    cls = (f"{solver}/{fam}/{branch}/{bucket}" + ("/slow-v+" if slow_vp else "")
+           + ("/at-vMin" if at_vmin else "") + ("/at-vJ" if at_vj else "")
            + ("/fallback" if took_fallback else "") + ("/unconverged-flag" if unconv else ""))
     v.info["matching"] = [vp, vm, Tp, Tm]
 
